@@ -41,13 +41,16 @@ impl PathSelector {
     /// also by the patterns that match the path it has below the input path as given.
     /// To be called before the files below that input path are matched.
     pub fn add_input_path(&self, given: &Path, resolved: &Path) {
-        // What the two paths have in common at the end is not part of the alias:
-        // many files listed below one linked directory make one alias.
+        // What the two paths have in common at the end is not part of the alias: many files
+        // listed below one linked directory make one alias. But the paths part where `given`
+        // is a symbolic link itself, whatever its name is: `home/Documents -> ../data/Documents`
+        // does not make `home` another name of `data`.
         let mut given = Self::without_dots(given).to_path_buf();
         let mut resolved = resolved.to_path_buf();
         while given != resolved
             && given.file_name().is_some()
             && given.file_name() == resolved.file_name()
+            && !std::fs::symlink_metadata(&given).map_or(true, |m| m.file_type().is_symlink())
         {
             given.pop();
             resolved.pop();
